@@ -106,6 +106,9 @@ func OwnedBy(m Mismatch, a map[string]any, prop string) bool {
 
 		return false
 	}
+	if strings.HasPrefix(m.Kind, "txn") && prop == "C12" {
+		return true
+	}
 	if m.Kind == "codec" && prop == "C11" {
 		return true
 	}
